@@ -142,6 +142,21 @@ LcaFacts == pc = "done" =>
        /\ input.c.floss > 0 => expect.opt = {expect.lca}
 
 (***************************************************************************)
+(* SpecEval: every total mapping (valid or not) with the event of every    *)
+(* node and its cost, for the evaluator property (C06).                    *)
+(***************************************************************************)
+EvalExpected(inp) ==
+  LET I == SpInfo[inp.st] IN
+  {[m |-> m, ev |-> [u \in Nodes(inp.ot) |-> EventAt(inp.ot, I, m, u)], cost |-> RecCost(inp.ot, I, inp.c, m)] :
+     m \in AllMappings(inp.ot, I.n, inp.lm)}
+GenEval == /\ pc = "gen" /\ pc' = "done" /\ expect' = EvalExpected(input)
+           /\ UNCHANGED <<input, k, table, dec, got>>
+SpecEval == InitGen /\ [][GenEval]_vars
+\* the cost is infinite exactly when some event is invalid or costs infinitely much
+EvalInv == pc = "done" => \A r \in expect :
+  (r.cost >= Inf) <=> (\E u \in Nodes(input.ot) : r.ev[u] = "X" \/ (r.ev[u] \in {"TL", "TR"} /\ input.c.hgt >= Inf))
+
+(***************************************************************************)
 (* SpecSteps: the algorithm as a state machine (E1).                       *)
 (*   start -> fill (one object node per step, bottom-up) -> decode -> rank *)
 (***************************************************************************)
